@@ -129,22 +129,34 @@ def build_history(rng, name, steps, pyproject, sweep=True):
     docs = histgen.initial_docs(rng)
     paths = list(docs)
     files = {p: docs[p].render()[0] for p in paths}
-    sc = stdio.StdioCase(name, files, pyproject=pyproject)
+    # half of the histories start on a workspace the scan has already indexed, and leave one document closed until
+    # the others have been edited: its first open (with the text it has on disk) comes after its conftest files changed
+    late = rng.choice(sorted(paths)) if rng.random() < 0.5 else None
+    sc = stdio.StdioCase(name, files, pyproject=pyproject, scan_first=(late is not None))
     order = list(paths); rng.shuffle(order)
     log = []          # per answering step: (path, text, valid?)
     for p in order:
+        if p == late:
+            continue
         sc.open(p)
         log.append((p, files[p], True, "open"))
     cur = dict(docs)
     kinds = []
     for _ in range(steps):
-        p = rng.choice(paths)
+        p = rng.choice([q for q in paths if q != late])
         nd, kind = histgen.mutate(rng, cur[p])
         cur[p] = nd
         t = nd.render()[0]
         sc.change(p, t)
         kinds.append(kind)
         log.append((p, t, not nd.broken, kind))
+    if late is not None:
+        sc.open(late)
+        log.append((late, files[late], True, "late-open"))
+        kinds.append("late-open")
+        if not any(cur[q].broken for q in paths):
+            # reference: a server started fresh on exactly these contents, opening that document
+            sc.meta["fresh_ref"] = ({q: (files[q] if q == late else cur[q].render()[0]) for q in paths}, late, len(log) - 1)
     if sweep:
         for p in sorted(paths):
             t = cur[p].render()[0]
@@ -162,6 +174,7 @@ def run(tier, seed):
     nv = 7 if tier == "quick" else 22          # configurations per history besides "no file"
     steps = 10 if tier == "quick" else 14
     scs, meta = [], {}
+    fresh_of = {}
     variant = 0
     for h in range(nh):
         hseed = r.rng.randrange(1 << 30)
@@ -176,6 +189,16 @@ def run(tier, seed):
             sc.meta.update({"config": desc, "mutations": kinds})
             meta[sc.name] = (h, ci, log, exp, desc, kinds)
             scs.append(sc)
+            if ci == 0 and "fresh_ref" in sc.meta:
+                ffiles, late, at = sc.meta.pop("fresh_ref")
+                fs = stdio.StdioCase("h%dF" % h, ffiles, scan_first=True)
+                fs.open(late)
+                fs.meta["config"] = "fresh reference for h%dc0" % h
+                meta[fs.name] = (-2, 0, [(late, ffiles[late], True, "fresh-open")], None, "fresh server on the same contents", [])
+                fresh_of[sc.name] = (fs.name, at, late)
+                scs.append(fs)
+            else:
+                sc.meta.pop("fresh_ref", None)
             r.stats.setdefault("configs", {})
             kindname = desc.split(":")[0].split(" [")[0].split(" %")[0][:24]
             r.stats["configs"][kindname] = r.stats["configs"].get(kindname, 0) + 1
@@ -197,6 +220,23 @@ def run(tier, seed):
     for (sc, i, step, a, m, k) in res:
         by.setdefault(sc.name, []).append((i, step, a, m, k))
     npub = nspan = nfilter = 0
+    # (4) the first open of a document after its conftest files changed = a fresh server on the same contents
+    nocyc = lambda a: sorted(x[5] for x in parse_diag(a) if x[0] != "circular-dependency")
+    nfresh = 0
+    for name, (fname, at, late) in fresh_of.items():
+        rows, frows = by.get(name, []), by.get(fname, [])
+        if len(rows) <= at or not frows:
+            continue
+        a, fa = rows[at][2], frows[0][2]
+        if any(x in ("DIED", "HUNG") or x.startswith(("DIED-AT-START", "NO-PUBLISH")) for x in (a, fa)):
+            continue
+        nfresh += 1
+        if nocyc(a) != nocyc(fa):
+            msg = (f"stdio case {name}: {late} is opened for the first time (with the text it has on disk) after other documents "
+                   f"were edited; the diagnostics published for it are {nocyc(a)}, a server started fresh on the same contents "
+                   f"publishes {nocyc(fa)} — the findings for its latest content")
+            v.violation(f"{name}-late-open", msg, f"# {msg}\n" + mcases.replay_text(name))
+    r.stats["late_opens_compared_with_fresh_server"] = nfresh
     for name, rows in by.items():
         h, ci, log, exp, desc, kinds = meta[name]
         base = by.get("h%dc0" % h) if h >= 0 else None
